@@ -25,7 +25,8 @@ use stdx::default::default;
 use tracing::debug;
 use uuid::Uuid;
 
-fn normalize_path(path: &Path, delimiter: &str) -> Option<String> {
+/// The key of an object file: the components of its path below the bucket directory, joined by `/`.
+fn normalize_path(path: &Path) -> Option<String> {
     let mut normalized = String::new();
     let mut first = true;
     for component in path.components() {
@@ -36,7 +37,7 @@ fn normalize_path(path: &Path, delimiter: &str) -> Option<String> {
             Component::Normal(name) => {
                 let name = name.to_str()?;
                 if !first {
-                    normalized.push_str(delimiter);
+                    normalized.push('/');
                 }
                 normalized.push_str(name);
                 first = false;
@@ -44,6 +45,20 @@ fn normalize_path(path: &Path, delimiter: &str) -> Option<String> {
         }
     }
     Some(normalized)
+}
+
+/// The common prefix a listed key is rolled up into: the key up to and including
+/// the first occurrence of the delimiter after the prefix.
+fn common_prefix(key: &str, prefix: &str, delimiter: &str) -> Option<String> {
+    let rest = key.strip_prefix(prefix)?;
+    let (group, _) = rest.split_once(delimiter)?;
+    Some(format!("{prefix}{group}{delimiter}"))
+}
+
+/// An entry of a listing: a key, or the common prefix of a run of keys.
+enum ListEntry {
+    Object(Object),
+    CommonPrefix(String),
 }
 
 /// <https://developer.mozilla.org/en-US/docs/Web/HTTP/Headers/Content-Range>
@@ -399,11 +414,15 @@ impl S3 for FileSystem {
 
         Ok(v2_resp.map_output(|v2| ListObjectsOutput {
             contents: v2.contents,
+            common_prefixes: v2.common_prefixes,
             delimiter: v2.delimiter,
             encoding_type: v2.encoding_type,
             name: v2.name,
             prefix: v2.prefix,
+            marker: v2.start_after,
             max_keys: v2.max_keys,
+            is_truncated: v2.is_truncated,
+            next_marker: v2.next_continuation_token,
             ..Default::default()
         }))
     }
@@ -416,6 +435,14 @@ impl S3 for FileSystem {
         if path.exists().not() {
             return Err(s3_error!(NoSuchBucket));
         }
+
+        // keys never start with a slash
+        let prefix = input.prefix.as_deref().unwrap_or("").trim_start_matches('/');
+        // an empty delimiter groups nothing
+        let delimiter = input.delimiter.as_deref().filter(|d| !d.is_empty());
+        // the listing continues after the last key of the previous page
+        let start_after = input.continuation_token.as_deref().or(input.start_after.as_deref());
+        let max_keys = input.max_keys.unwrap_or(1000).max(0);
 
         let mut objects: Vec<Object> = default();
         let mut dir_queue: VecDeque<PathBuf> = default();
@@ -430,20 +457,12 @@ impl S3 for FileSystem {
                 } else {
                     let file_path = entry.path();
                     let key = try_!(file_path.strip_prefix(&path));
-                    let delimiter = input.delimiter.as_ref().map_or("/", |d| d.as_str());
-                    let Some(key_str) = normalize_path(key, delimiter) else {
+                    let Some(key_str) = normalize_path(key) else {
                         continue;
                     };
 
-                    if let Some(ref prefix) = input.prefix {
-                        let prefix_path: PathBuf = prefix.split(delimiter).collect();
-
-                        let key_s = format!("{}", key.display());
-                        let prefix_path_s = format!("{}", prefix_path.display());
-
-                        if !key_s.starts_with(&prefix_path_s) {
-                            continue;
-                        }
+                    if !key_str.starts_with(prefix) {
+                        continue;
                     }
 
                     let metadata = try_!(entry.metadata().await);
@@ -467,21 +486,63 @@ impl S3 for FileSystem {
             lhs_key.cmp(rhs_key)
         });
 
-        let objects = if let Some(marker) = &input.start_after {
+        let objects: Vec<Object> = if let Some(marker) = start_after {
             objects
                 .into_iter()
-                .skip_while(|n| n.key.as_deref().unwrap_or("") <= marker.as_str())
+                .skip_while(|n| n.key.as_deref().unwrap_or("") <= marker)
                 .collect()
         } else {
             objects
         };
 
-        let key_count = try_!(i32::try_from(objects.len()));
+        // One entry per key, or per run of keys that share a common prefix.
+        // Each entry remembers the last key it stands for: the next page starts after that key.
+        let mut entries: Vec<(ListEntry, String)> = default();
+        for object in objects {
+            let key = object.key.clone().unwrap_or_default();
+            match delimiter.and_then(|d| common_prefix(&key, prefix, d)) {
+                Some(group) => {
+                    if let Some((ListEntry::CommonPrefix(last_group), last_key)) = entries.last_mut() {
+                        if *last_group == group {
+                            *last_key = key;
+                            continue;
+                        }
+                    }
+                    entries.push((ListEntry::CommonPrefix(group), key));
+                }
+                None => entries.push((ListEntry::Object(object), key)),
+            }
+        }
+
+        let limit = try_!(usize::try_from(max_keys));
+        let is_truncated = entries.len() > limit;
+        entries.truncate(limit);
+
+        let next_continuation_token = if is_truncated {
+            entries.last().map(|(_, last_key)| last_key.clone())
+        } else {
+            None
+        };
+        let key_count = try_!(i32::try_from(entries.len()));
+
+        let mut contents: Vec<Object> = default();
+        let mut common_prefixes: Vec<CommonPrefix> = default();
+        for (entry, _) in entries {
+            match entry {
+                ListEntry::Object(object) => contents.push(object),
+                ListEntry::CommonPrefix(group) => common_prefixes.push(CommonPrefix { prefix: Some(group) }),
+            }
+        }
 
         let output = ListObjectsV2Output {
             key_count: Some(key_count),
-            max_keys: Some(key_count),
-            contents: Some(objects),
+            max_keys: Some(max_keys),
+            is_truncated: Some(is_truncated),
+            contents: Some(contents),
+            common_prefixes: Some(common_prefixes),
+            continuation_token: input.continuation_token,
+            next_continuation_token,
+            start_after: input.start_after,
             delimiter: input.delimiter,
             encoding_type: input.encoding_type,
             name: Some(input.bucket),
